@@ -4,6 +4,7 @@
 mod proto;
 mod c06;
 mod c07;
+mod calls;
 mod errs;
 mod pathmap;
 mod ioinst;
@@ -61,6 +62,7 @@ fn main() {
         ("reader", m) => reader::run(m, &a),
         ("snippet", m) => snippet::run(m, &a),
         ("scalarrt", m) => scalarrt::run(m, &a),
+        ("calls", m) => calls::run(m, &a),
         _ => { eprintln!("unknown area/mode"); 2 }
     };
     std::process::exit(code);
